@@ -28,7 +28,10 @@ type FnInfo struct {
 	T     *Termer
 	facts []Fact
 	// reachable-without-edge cache: fact index -> set of reachable block indices
-	reachNo map[int]map[int]bool
+	reachNo      map[int]map[int]bool
+	impliedCache map[int][]Fact
+	depth        int  // nesting depth when analysing a callee in a caller's vocabulary
+	noImplied    bool // only facts of the function's own branches
 }
 
 func (w *World) Info(fn *ssa.Function) *FnInfo {
@@ -141,6 +144,22 @@ func (fi *FnInfo) reachableWithoutEdge(iff *ssa.If, succ int) map[int]bool {
 // FactsAt returns all facts whose edge dominates block b (every path from entry to b
 // crosses that edge).
 func (fi *FnInfo) FactsAt(b *ssa.BasicBlock) []Fact {
+	own := fi.ownFactsAt(b)
+	if fi.noImplied || fi.depth >= 2 {
+		return own
+	}
+	if c, ok := fi.impliedCache[b.Index]; ok {
+		return append(own, c...)
+	}
+	imp := fi.impliedFacts(own)
+	if fi.impliedCache == nil {
+		fi.impliedCache = map[int][]Fact{}
+	}
+	fi.impliedCache[b.Index] = imp
+	return append(own, imp...)
+}
+
+func (fi *FnInfo) ownFactsAt(b *ssa.BasicBlock) []Fact {
 	var out []Fact
 	for i, f := range fi.facts {
 		r, ok := fi.reachNo[i]
@@ -149,6 +168,140 @@ func (fi *FnInfo) FactsAt(b *ssa.BasicBlock) []Fact {
 			fi.reachNo[i] = r
 		}
 		if !r[b.Index] {
+			out = append(out, f)
+		}
+	}
+	return out
+}
+
+// impliedFacts: a check that was extracted into an in-repository helper still guards the
+// code after it. For every dominating fact of the form
+//     helper(args) [#i] == nil      (the helper returned no error), or
+//     helper(args) is true / false  (boolean helper),
+// the facts that hold on EVERY corresponding return of the helper (expressed in this
+// function's vocabulary through parameter substitution) hold here as well.
+func (fi *FnInfo) impliedFacts(own []Fact) []Fact {
+	var out []Fact
+	seen := map[*ssa.Call]bool{}
+	for _, f := range own {
+		var callT *Term
+		mode := ""
+		switch f.Op {
+		case "==":
+			for _, pr := range [][2]*Term{{f.L, f.R}, {f.R, f.L}} {
+				if pr[1].Op == "nil" {
+					t := pr[0]
+					if t.Op == "extract" {
+						t = t.Args[0]
+					}
+					if t.Op == "call" {
+						callT, mode = t, "errnil"
+					}
+				}
+			}
+		case "true", "false":
+			if f.L.Op == "call" {
+				callT, mode = f.L, f.Op
+			}
+		}
+		if callT == nil {
+			continue
+		}
+		// find the SSA call with this term
+		var call *ssa.Call
+		for _, blk := range fi.Fn.Blocks {
+			for _, in := range blk.Instrs {
+				if c, ok := in.(*ssa.Call); ok && !c.Call.IsInvoke() && c.Call.StaticCallee() != nil && fi.T.Of(c).String() == callT.String() {
+					call = c
+				}
+			}
+		}
+		if call == nil || seen[call] {
+			continue
+		}
+		seen[call] = true
+		callee := call.Call.StaticCallee()
+		if callee.Blocks == nil || callee.Pkg == nil || !strings.HasPrefix(callee.Pkg.Pkg.Path(), modPath) {
+			continue
+		}
+		env := map[*ssa.Parameter]*Term{}
+		for i, p := range callee.Params {
+			if i < len(call.Call.Args) {
+				env[p] = fi.T.Of(call.Call.Args[i])
+			}
+		}
+		sub := &FnInfo{w: fi.w, Fn: callee, reachNo: map[int]map[int]bool{}, depth: fi.depth + 1}
+		sub.T = &Termer{w: fi.w, fn: callee, env: env, visited: map[ssa.Value]bool{}, cache: map[ssa.Value]*Term{}, Inline: true}
+		sub.initFacts()
+		out = append(out, sub.commonReturnFacts(mode)...)
+	}
+	return out
+}
+
+// commonReturnFacts returns the facts that dominate every return of the function that
+// is compatible with mode: "errnil" (error result nil or unknown), "true"/"false"
+// (boolean result not the opposite constant).
+func (fi *FnInfo) commonReturnFacts(mode string) []Fact {
+	var sets [][]Fact
+	for _, r := range fi.Returns() {
+		var extra []Fact
+		switch mode {
+		case "errnil":
+			if r.Kind == RetFail {
+				continue
+			}
+		case "true", "false":
+			if len(r.Instr.Results) != 1 {
+				return nil
+			}
+			v := RetVal(r.Instr, 0)
+			if c, ok := v.(*ssa.Const); ok && c.Value != nil {
+				if c.Value.String() != mode {
+					continue
+				}
+			} else if phi, ok := v.(*ssa.Phi); ok {
+				// short-circuit result: only the edges that can carry `mode`
+				var live []int
+				for i, e := range phi.Edges {
+					if c, ok := e.(*ssa.Const); ok && c.Value != nil && c.Value.String() != mode {
+						continue
+					}
+					live = append(live, i)
+				}
+				if len(live) == 1 {
+					i := live[0]
+					extra = append(extra, fi.FactsAt(phi.Block().Preds[i])...)
+					if _, isConst := phi.Edges[i].(*ssa.Const); !isConst {
+						extra = append(extra, boolAtom(fi.T.Of(phi.Edges[i]), mode == "true"))
+					}
+				}
+			} else {
+				extra = append(extra, boolAtom(fi.T.Of(v), mode == "true"))
+			}
+		}
+		sets = append(sets, append(fi.FactsAt(r.Instr.Block()), extra...))
+	}
+	if len(sets) == 0 {
+		return nil
+	}
+	// intersection by atom
+	var out []Fact
+	for _, f := range sets[0] {
+		inAll := true
+		for _, s := range sets[1:] {
+			found := false
+			for _, g := range s {
+				if g.Atom == f.Atom {
+					found = true
+					break
+				}
+			}
+			if !found {
+				inAll = false
+				break
+			}
+		}
+		if inAll {
 			out = append(out, f)
 		}
 	}
